@@ -16,7 +16,72 @@ def default_engine(chk, prop, tier, seed, replay, t0):
         rc, res = chk.run_pv(prop, tier, seed + (0 if tag == "checked" else 7919), tag, scale,
                              int(budget * share), extra)
         results.append((tag, rc, res))
+    if tier == "thorough" and prop in MEMCHECK_SLICES and not replay:
+        results.extend(memcheck_slices(chk, prop, seed))
     return chk.merge_and_report(prop, tier, seed, results, chk.ASSUME, t0)
+
+
+# Secondary sanitizer layer (thorough tier): the release monitor binary re-run under valgrind
+# memcheck on a small slice of the same workload, one process per seed (valgrind serialises
+# threads). parol itself has no unsafe code; this watches the unsafe code of the dependencies the
+# workload reaches (scnr2, syntree, hashbrown, regex-automata, ...). A memcheck report is a
+# violation of the owning property's "does not crash / is lossless" reading; silence is reported as
+# "no report on N executions", nothing more.
+MEMCHECK_SLICES = {"C13": 0.004, "C14": 0.01, "C16": 0.01, "C17": 0.01, "C19": 0.01, "C26": 0.004, "C31": 0.002, "C32": 0.002}
+MEMCHECK_PROCS = 12
+
+
+def memcheck_slices(chk, prop, seed):
+    import os, subprocess, json, shutil
+    if not shutil.which("valgrind"):
+        chk.log("note: valgrind not available, memcheck slice skipped")
+        return []
+    exe = os.path.join(chk.TARGET, "release", "pv")
+    procs = []
+    for i in range(MEMCHECK_PROCS):
+        tag = f"memcheck{i}"
+        out = os.path.join(chk.WORK, f"{prop}.{tag}.json")
+        vglog = os.path.join(chk.WORK, f"{prop}.{tag}.vglog")
+        for f in (out, vglog):
+            if os.path.exists(f):
+                os.remove(f)
+        cmd = ["valgrind", "--error-exitcode=99", "--quiet", f"--log-file={vglog}", exe, prop, "thorough",
+               "--seed", str(seed + 104729 * (i + 1)), "--build", tag, "--out", out,
+               "--scale", str(MEMCHECK_SLICES[prop] / 20.0), "--budget-s", "400", "--shards", "1",
+               "--case-limit-s", "900", "--light", "--known", chk.KNOWN]
+        lf = open(os.path.join(chk.WORK, f"{prop}.{tag}.log"), "w")
+        procs.append((tag, out, vglog, subprocess.Popen(cmd, cwd=chk.VERIF, env=chk.env(), stdout=lf, stderr=subprocess.STDOUT)))
+    results = []
+    for tag, out, vglog, p in procs:
+        try:
+            rc = p.wait(timeout=1500)
+        except subprocess.TimeoutExpired:
+            p.kill()
+            rc = -999
+        res = None
+        if os.path.exists(out):
+            try:
+                res = json.load(open(out))
+            except Exception:  # noqa
+                res = None
+        report = open(vglog).read() if os.path.exists(vglog) else ""
+        if rc == 99 or "== Invalid" in report or "uninitialised" in report:
+            res = res or {"evaluations": 0, "distinct_nontrivial": 0, "rule": "", "samples": [], "wall_s": 0}
+            res.setdefault("violations", []).append({
+                "signature": {"kind": "memcheck-report"},
+                "what": "valgrind memcheck reported an error while the monitor workload ran: " + " ".join(report.split()[:60]),
+                "witness": {"valgrind_log": vglog, "seed": seed + 104729 * (int(tag[8:]) + 1)}})
+            rc = 1
+        if res is not None:
+            res["observed_too_little"] = False  # a slice is allowed to be small; the main builds carry the minimum
+            if rc == 3:
+                rc = 0
+        chk.log(f"memcheck slice {tag}: rc={rc} evaluations={(res or {}).get('evaluations')}")
+        if rc == -999 or res is None:
+            chk.log(f"note: {tag} inconclusive (timeout or no result)")
+            continue
+        results.append((tag, rc, res))
+    return results
 
 
 def build_parol_ls(chk):
